@@ -213,6 +213,13 @@ impl<const D: usize> NbTwin<D> {
             v.push(Ev::Cycle { confirmed: false, port: 1, len: 1, rx1: Some(f.clone()), rx2: None });
             v.push(Ev::Cycle { confirmed: false, port: 1, len: 1, rx1: None, rx2: Some(f) });
         }
+        if self.a.cfg.otaa {
+            // a re-join from the joined state (what the previous session negotiated is still around while the
+            // join request's windows are open): unanswered, and answered in RX2
+            let ok = Frame::JoinAccept { join_nonce: 9, net_id: 0x13, devaddr: DEVADDR, dl_settings: 0, rx_delay: 1, cflist: None, tamper: Tamper::None, trunc: 0 };
+            v.push(Ev::JoinCycle { rx1: None, rx2: None });
+            v.push(Ev::JoinCycle { rx1: None, rx2: Some(ok) });
+        }
         v
     }
 }
@@ -243,10 +250,12 @@ fn run_nb<const D: usize>(core: &mut NbCore<14, 0, D>, base: &Ev, inject: Option
         go!(Ev::TxDone);
     }
     for (w, frame) in [(1u8, rx1), (2u8, rx2)] {
-        if !matches!(core.st(), VerifNbState::WaitingForRxWindow { .. }) {
-            return (out, inj_idx);
+        match core.st() {
+            VerifNbState::WaitingForRxWindow { .. } => go!(Ev::Timeout),
+            // (a stack that keeps RX1 open until RX2 is due may open RX2 in the step that closes RX1)
+            VerifNbState::WaitingForRx { window, .. } if window == w && w == 2 => {}
+            _ => return (out, inj_idx),
         }
-        go!(Ev::Timeout);
         if let Some(i) = inject
             && i.at == w
             && matches!(core.st(), VerifNbState::WaitingForRx { .. })
@@ -286,7 +295,8 @@ impl<const D: usize> System for NbTwin<D> {
                     Ev::Cycle { rx1, rx2, .. } | Ev::JoinCycle { rx1, rx2 } => (rx1.is_some(), rx2.is_some()),
                     _ => (false, false),
                 };
-                for f in reject_candidates(&self.a.cfg.region, !joined) {
+                let join_base = !joined || matches!(base, Ev::JoinCycle { .. });
+                for f in reject_candidates(&self.a.cfg.region, join_base) {
                     // window 1 is always opened; window 2 only when nothing was accepted in RX1
                     v.push(TwinEv { base: base.clone(), inject: Some(Inject { at: 1, frame: f.clone() }) });
                     if !r1 {
@@ -523,6 +533,11 @@ impl System for ATwin {
             for n in 0..4usize {
                 bases.push(AEv::Send { confirmed: false, port: 1, len: 1, script: Script { fault_low_power: Some(n), ..Default::default() } });
             }
+            if self.a.cfg.otaa {
+                let ok = Frame::JoinAccept { join_nonce: 9, net_id: 0x13, devaddr: DEVADDR, dl_settings: 0, rx_delay: 1, cflist: None, tamper: Tamper::None, trunc: 0 };
+                bases.push(AEv::Join(Script::default()));
+                bases.push(AEv::Join(Script { rx2: Some(ok), ..Default::default() }));
+            }
             if self.class_c {
                 let f = base_downlinks(&region);
                 bases.push(AEv::Send { confirmed: false, port: 1, len: 1, script: Script { rxc1: vec![f[0].clone()], ..Default::default() } });
@@ -542,7 +557,7 @@ impl System for ATwin {
             v.push(ATwinEv { base: base.clone(), inject: None });
             if self.injected < self.bound {
                 let ats: &[u8] = if self.class_c { &[1, 2, 3, 4, 5] } else { &[1, 2] };
-                for f in reject_candidates(&region, !joined) {
+                for f in reject_candidates(&region, !joined || matches!(base, AEv::Join(_))) {
                     for &at in ats {
                         let inj = Inject { at, frame: f.clone() };
                         // (an oversized frame in RX1 may end the procedure early, which removes later radio calls:
@@ -758,7 +773,7 @@ pub fn run(tier: Tier, replay: Option<&str>) {
         "samples": [{"cfg": serde_json::to_value(&runs[0]).unwrap(), "history": [serde_json::to_value(&sample).unwrap()]}],
         "evaluations": ctx.evals(),
         "distinct_nontrivial": states,
-        "rule": "self-composition: pair states (twin A, twin B) of two real devices (also nb boards with 1000 / 2500 ms receive windows) driven with identical events and RNG streams; every transaction of the base alphabet (plain / confirmed uplinks, downlinks that queue sticky answers, owed ACKs and one-shot answers, joins) is run with no injection and with each candidate frame injected into twin B at each receive opportunity (RX1, RX2; Class C: before RX1, before RX2, idle listening); candidates the reference accepts are skipped; after an injection the twins are compared in lock-step on responses, radio/timer operations, delivered downlinks and snapshots for the rest of the history; completely re-converged pairs are pruned",
+        "rule": "self-composition: pair states (twin A, twin B) of two real devices (also nb boards with 1000 / 2500 ms receive windows) driven with identical events and RNG streams; every transaction of the base alphabet (plain / confirmed uplinks, downlinks that queue sticky answers, owed ACKs and one-shot answers, joins, re-joins from the joined state) is run with no injection and with each candidate frame injected into twin B at each receive opportunity (RX1, RX2; Class C: before RX1, before RX2, idle listening); candidates the reference accepts are skipped; after an injection the twins are compared in lock-step on responses, radio/timer operations, delivered downlinks and snapshots for the rest of the history; completely re-converged pairs are pruned",
         "depth": depth,
         "injection_bound": 1,
         "configurations": runs.len(),
